@@ -1345,3 +1345,21 @@ def canon_place_deep(F, body, pl, depth=0):
             rest = rest[1:]
         return base[0], {"l": base[1]["l"], "p": list(base[1]["p"]) + rest}
     return pb, {"l": pp["l"], "p": list(pp["p"]) + rest}
+
+
+def fields_through_callers(F, body, op, bodies, depth=0):
+    """(fields, calls) the operand may depend on, following closure captures and — through the parameters of a helper
+    fn — the corresponding arguments at its call sites within `bodies`."""
+    ds = deep_slice(F, body, [op])
+    fields = set(ds.fields)
+    calls = list(ds.calls)
+    if depth < 3:
+        for key, pi in ds.root_params:
+            root = F.bodies.get(key)
+            for fb in bodies:
+                for s, t in fb.calls():
+                    if F.callee_body(t, fb.crate) is root and pi - 1 < len(t["args"]):
+                        f2, c2 = fields_through_callers(F, fb, t["args"][pi - 1], bodies, depth + 1)
+                        fields |= f2
+                        calls += c2
+    return fields, calls
